@@ -537,9 +537,11 @@ def run_check(prop, tier):
     zero = [p for p in getattr(mod, "REQUIRED_PROBES", {}).get(tier, []) if probes.get(p, 0) == 0]
     evidence["coverage"]["probes_stuck_at_zero"] = zero
     evdir = os.environ.get("VERIF_EVIDENCE_DIR") or os.path.join(VERIF, "evidence")
-    os.makedirs(evdir, exist_ok=True)
-    with open(os.path.join(evdir, f"{prop}.json"), "w") as f:
-        json.dump(evidence, f, indent=1, sort_keys=True)
+    if tier in ("quick", "thorough") or os.environ.get("VERIF_EVIDENCE_DIR"):
+        # the small 'selftest' tier never overwrites the evidence of a real run
+        os.makedirs(evdir, exist_ok=True)
+        with open(os.path.join(evdir, f"{prop}.json"), "w") as f:
+            json.dump(evidence, f, indent=1, sort_keys=True)
     print(f"[icalsim] {prop}: runs={runs} x hash_seeds={len(hash_seeds)} steps={steps} "
           f"distinct_nontrivial={len(nontrivial)} states={len(states)} wall={wall:.1f}s "
           f"digest={overall} violations={len(reported)}", flush=True)
